@@ -15,6 +15,8 @@
 package compile
 
 import (
+	"maps"
+	"slices"
 	"strings"
 
 	"cuelang.org/go/cue/ast"
@@ -274,9 +276,11 @@ func (c *compiler) pushScope(n labeler, upCount int32, id ast.Node) *frame {
 func (c *compiler) popScope() {
 	k := len(c.stack) - 1
 	f := c.stack[k]
-	for k, v := range f.aliases {
-		if !v.used {
-			c.errf(v.source, "unreferenced alias or let clause %s", k)
+	// Report in a fixed order: ranging over the map directly would make
+	// the order of the errors differ from run to run.
+	for _, name := range slices.Sorted(maps.Keys(f.aliases)) {
+		if v := f.aliases[name]; !v.used {
+			c.errf(v.source, "unreferenced alias or let clause %s", name)
 		}
 	}
 	c.stack = c.stack[:k]
